@@ -193,6 +193,15 @@ func renderTypes(s []httpapi.Endpoint) string {
 		if ty := api.Contract.Return; ty != nil {
 			allTypes = append(allTypes, ty)
 		}
+		// the signatures also mention the types of the query parameters and of the JSON form field
+		for _, param := range api.Contract.InputQueryParams {
+			if param.Type != nil {
+				allTypes = append(allTypes, param.Type)
+			}
+		}
+		if field := api.Contract.InputForm.JSON; field.Name != "" && field.Type != nil {
+			allTypes = append(allTypes, field.Type)
+		}
 	}
 	return generator.WriteDeclarations(generateTypes(allTypes))
 }
